@@ -21,6 +21,8 @@ pub struct ScratchFaults {
     pub mmap_fail: Option<u64>,
     /// fail the n-th scratch file creation with this errno
     pub create_fail: Option<(u64, i32)>,
+    /// fail the n-th madvise on a scratch mapping with EINVAL
+    pub madvise_fail: Option<u64>,
 }
 
 #[derive(Default, Debug, Clone)]
@@ -37,6 +39,8 @@ pub struct SysCounters {
     pub fired_mmap_fail: u64,
     pub fired_create_fail: u64,
     pub torn_writes: u64,
+    pub scratch_madvise: u64,
+    pub fired_madvise_fail: u64,
 }
 
 pub struct SysState {
@@ -52,6 +56,8 @@ pub struct SysState {
     /// byte count of the last pwrite on the data file (the meta page write is the only one < 4096)
     pub last_pwrite_count: AtomicU64,
     eintr_pending: AtomicBool,
+    /// (address, length) of the live mappings of scratch files
+    pub scratch_maps: Mutex<Vec<(usize, usize)>>,
 }
 
 static ON: AtomicBool = AtomicBool::new(false);
@@ -71,6 +77,7 @@ pub fn activate(main_data: &str, work_prefix: &str) -> Arc<SysState> {
         events: AtomicU64::new(0),
         last_pwrite_count: AtomicU64::new(0),
         eintr_pending: AtomicBool::new(false),
+        scratch_maps: Mutex::new(Vec::new()),
     });
     *STATE.write().unwrap() = Some(st.clone());
     ON.store(true, Ordering::SeqCst);
@@ -96,6 +103,8 @@ impl SysState {
         c.scratch_write = 0;
         c.scratch_mmap = 0;
         c.scratch_create = 0;
+        c.scratch_madvise = 0;
+        self.scratch_maps.lock().unwrap().clear();
     }
     pub fn counters(&self) -> SysCounters {
         self.counters.lock().unwrap().clone()
@@ -392,9 +401,37 @@ unsafe fn do_mmap(addr: *mut c_void, len: size_t, prot: c_int, flags: c_int, fd:
                     return libc::MAP_FAILED;
                 }
             }
-            raw_mmap(addr, len, prot, flags, fd, off)
+            let scratch = classify(st, fd) == Class::Scratch;
+            let p = raw_mmap(addr, len, prot, flags, fd, off);
+            if scratch && p != libc::MAP_FAILED {
+                st.scratch_maps.lock().unwrap().push((p as usize, len));
+            }
+            p
         },
     )
+}
+
+#[no_mangle]
+pub unsafe extern "C" fn madvise(addr: *mut c_void, len: size_t, advice: c_int) -> c_int {
+    let raw = || libc::syscall(libc::SYS_madvise, addr, len, advice as c_long) as c_int;
+    guard(raw, |st| {
+        let is_scratch = st.scratch_maps.lock().unwrap().iter().any(|(a, l)| (addr as usize) >= *a && (addr as usize) < *a + (*l).max(1));
+        if is_scratch {
+            let f = st.faults.lock().unwrap().clone();
+            let ord = {
+                let mut c = st.counters.lock().unwrap();
+                let o = c.scratch_madvise;
+                c.scratch_madvise += 1;
+                o
+            };
+            if f.madvise_fail.is_some_and(|n| ord >= n) {
+                st.counters.lock().unwrap().fired_madvise_fail += 1;
+                set_errno(libc::EINVAL);
+                return -1;
+            }
+        }
+        libc::syscall(libc::SYS_madvise, addr, len, advice as c_long) as c_int
+    })
 }
 
 #[no_mangle]
